@@ -25,6 +25,9 @@ DROPPED = {
  'c10_readbody_size_not_decremented': 'equivalent: "currentsize >= size" with constant size is the same predicate as decrementing size',
  'c18_ini_modified_not_set_for_new_section': 'equivalent: set() has already marked the file modified',
  'seeded/c11-sha1-static-workspace': 'not observable in flavour A: two handshakes must be inside SHA1::transform at the same moment, and flavour A (where the network scenarios of C11 run) switches threads only at wrapped calls, of which the hash has none; it would take the access-granular flavour T for a handshake scenario, which was not built',
+ 'seeded/c13-start-resets-finished': 'caught until fix e33520e (logs 02/13); since that fix a successful join() itself marks the object finished, so a flag cleared by start() no longer survives join(): the statement constrains finished() only from join() on, and the change is no longer a violation',
+ 'seeded/c13-start-resets-finished-2': 'as c13-start-resets-finished: caught until fix e33520e made join() set the flag (logs 03/13)',
+ 'seeded/c13-start-resets-finished-3': 'as c13-start-resets-finished: caught until fix e33520e made join() set the flag (log 07)',
  'seeded/c13-thread-assign-keeps-handle': 'not generated: its trigger - the assigned-from Thread object destroyed while the task runs - makes the UNCHANGED library write its finished flag into the destroyed object (residual of defect 25, DESIGN section 9), which would corrupt the harness; the assignment histories therefore keep the source object alive to the end, and with a live source the change has no effect',
  'seeded/c14-fd0-never-closed': 'not reachable: the change only matters for descriptor 0 (a process whose stdin is closed); the simulated network hands out descriptors from its own range above the real ones, so no simulated socket is ever 0. A blind spot of the stub, stated as such',
  'seeded/c13-join-keeps-handle-for-lambda': 'not observable in the verification build: the change makes join() depend on the "return value" of a void function called through a void*(*)(void*) pointer, i.e. on whatever the return register holds; with clang -O1 and the instrumentation of flavour T that value is 0 and the changed code behaves correctly (g++ -O2, which the author used, leaves a non-zero value). The second-wave histories and the identifier-reuse rule of the thread stub were added for it all the same',
